@@ -156,12 +156,12 @@ def addr_bytes(mid: bytes, st=5, m=0) -> bytes:
     return rc.build_addr(m, st, mid)
 
 
-def secured_station(ether, mid, own_at, known_ats=(), ports=(2001, 2002, 2018, 3000), mib_kwargs=None, zoo=None):
+def secured_station(ether, mid, own_at, known_ats=(), ports=(2001, 2002, 2018, 3000), mib_kwargs=None, zoo=None, aas=None):
     """Station with itsGnSecurity ENABLED, trusting the zoo's root and AA, signing with own_at."""
     from flexstack.geonet.mib import GnSecurity
     from . import pki
     z = zoo or pki.Zoo.get()
-    lib, sign, ver = z.station_security(own_at, known_ats)
+    lib, sign, ver = z.station_security(own_at, known_ats, aas=aas)
     kw = dict(mib_kwargs or {})
     kw.setdefault("itsGnSecurity", GnSecurity.ENABLED)
     kw.setdefault("itsGnMaxPacketDataRate", 10**9)
